@@ -480,6 +480,10 @@ func (n *BinaryNode) MarshalJSON() ([]byte, error) {
 		SetOperator("operator", n.Operator).
 		Set("left", n.Left).
 		Set("right", n.Right)
+	if n.Parens {
+		// Formatting relies on this flag, without it (1 + 2) * 3 is printed as 1 + 2 * 3.
+		props = props.Set("parens", true)
+	}
 
 	return json.Marshal(&props)
 }
@@ -500,6 +504,11 @@ func (n *BinaryNode) unmarshal(props JSONNode) error {
 
 	if n.Right, err = props.Node("right"); err != nil {
 		return err
+	}
+	if props.Has("parens") {
+		if n.Parens, err = props.Bool("parens"); err != nil {
+			return err
+		}
 	}
 	return nil
 }
@@ -1344,8 +1353,14 @@ func (n *RegexNode) Format(buf *bytes.Buffer, indent string, onNewLine bool) {
 		onNewLine = true
 	}
 	writeIndent(buf, indent, onNewLine)
+	literal := n.Literal
+	if literal == "" && n.Regex != nil {
+		// A node that was not created by the parser (e.g. read from JSON) has no literal,
+		// print the expression with its slashes escaped.
+		literal = strings.Replace(n.Regex.String(), "/", "\\/", -1)
+	}
 	buf.WriteByte('/')
-	buf.WriteString(n.Literal)
+	buf.WriteString(literal)
 	buf.WriteByte('/')
 }
 
